@@ -54,8 +54,16 @@ func (g *Gen) govSteps(msgs ...sdk.Msg) []func() [][]byte {
 // depositSteps: the genesis validators (who are reporters by then) report deposit `id`, a minority may report a
 // different value, the 2000-block window is fast-forwarded, and claims are tried just before and after 12 h.
 func (g *Gen) depositSteps(id uint64, amountTRB, tipTRB int64, wait int) []func() [][]byte {
+	return g.depositStepsRaw(id, amountTRB, tipTRB, wait, "")
+}
+
+// depositStepsRaw: like depositSteps; a non-empty raw is the exact value every validator reports (hostile encodings)
+func (g *Gen) depositStepsRaw(id uint64, amountTRB, tipTRB int64, wait int, raw string) []func() [][]byte {
 	rcpt := g.c.W.Users[int(id)%len(g.c.W.Users)]
 	mk := func(a, t int64) string {
+		if raw != "" {
+			return raw
+		}
 		return DepositValue([]byte{byte(id), 9, 9}, rcpt.Bech(), new(big.Int).Mul(big.NewInt(a), big.NewInt(1e18)), new(big.Int).Mul(big.NewInt(t), big.NewInt(1e18)))
 	}
 	good := mk(amountTRB, tipTRB)
@@ -141,6 +149,32 @@ func init() {
 		}
 		return []func() [][]byte{wait, wait, wait, wait, wait, wait, rep(0), jump, rep(1, 2), rep(3, 0), wait}
 	}
+	// hostile deposit reports (what the quantifier of C14 lists): every validator reports the same odd value, so it
+	// becomes the aggregate; the claim must then be refused or pay exactly what the value says
+	e18 := func(n int64) *big.Int { return new(big.Int).Mul(big.NewInt(n), big.NewInt(1e18)) }
+	hostileDeposit := func(id uint64, mk func(g *Gen) string) func(g *Gen) []func() [][]byte {
+		return func(g *Gen) []func() [][]byte { return g.depositStepsRaw(id, 0, 0, 1, mk(g)) }
+	}
+	fragments["depositTipAboveAmount"] = hostileDeposit(5, func(g *Gen) string { return DepositValue([]byte{5, 1}, g.c.W.Users[1].Bech(), e18(3), e18(8)) })
+	fragments["depositTipEqualsAmount"] = hostileDeposit(6, func(g *Gen) string { return DepositValue([]byte{6, 1}, g.c.W.Users[2].Bech(), e18(4), e18(4)) })
+	fragments["depositBadRecipient"] = hostileDeposit(7, func(g *Gen) string { return DepositValue([]byte{7, 1}, "not-a-bech32-address", e18(5), e18(1)) })
+	fragments["depositForeignPrefix"] = hostileDeposit(8, func(g *Gen) string {
+		return DepositValue([]byte{8, 1}, "cosmos1qypqxpq9qcrsszg2pvxq6rs0zqg3yyc5lzv7xu", e18(5), big.NewInt(0))
+	})
+	fragments["depositSubUnit"] = hostileDeposit(9, func(g *Gen) string {
+		// amount and tip with parts below 1e12 (dropped by the unit conversion) and a tip of less than one unit
+		return DepositValue([]byte{9, 1}, g.c.W.Users[3].Bech(), new(big.Int).Add(e18(2), big.NewInt(999_999_999_999)), big.NewInt(999_999_999_999))
+	})
+	fragments["depositHuge"] = hostileDeposit(10, func(g *Gen) string {
+		return DepositValue([]byte{10, 1}, g.c.W.Users[4].Bech(), new(big.Int).Lsh(big.NewInt(1), 200), big.NewInt(0))
+	})
+	fragments["depositTruncated"] = hostileDeposit(11, func(g *Gen) string {
+		v := DepositValue([]byte{11, 1}, g.c.W.Users[5].Bech(), e18(6), big.NewInt(0))
+		return v[:len(v)-70]
+	})
+	fragments["depositZero"] = hostileDeposit(12, func(g *Gen) string {
+		return DepositValue([]byte{12, 1}, g.c.W.Users[6].Bech(), big.NewInt(0), big.NewInt(0))
+	})
 	fragments["mintInit"] = func(g *Gen) []func() [][]byte {
 		// give the chain a few blocks first
 		wait := func() [][]byte { return nil }
